@@ -10,6 +10,7 @@ func init() {
 	vpRegister("c16_inline_struct", vpH_c16_inline_struct)
 	vpRegister("c16_tags", vpH_c16_tags)
 	vpRegister("c16_reuse", vpH_c16_reuse)
+	vpRegister("c16_twice", vpH_c16_twice)
 }
 
 type vpT1 struct {
@@ -641,4 +642,93 @@ func vpH_c16_reuse() {
 		e := items[keep+1]
 		vpAssert(e.Name == "" && len(e.Tags) == 0 && e.Next == nil && len(e.Rest) == 0, "an empty item decodes to the zero value")
 	}
+}
+
+// ---- one destination, two documents ----
+
+type vpHolder struct {
+	Name  string         `yaml:"name"`
+	Extra any            `yaml:"extra"`
+	Ptr   *vpInner       `yaml:"ptr"`
+	Rest  map[string]any `yaml:",inline"`
+}
+
+// A destination that already holds the result of an earlier document takes a
+// second one key by key: a present key replaces what the field held (a field
+// of type any takes the new value as it is - it is not merged into whatever
+// the field pointed to), an absent key leaves it, null zeroes it; the first
+// document itself is never written to.
+func vpH_c16_twice() {
+	m1 := NewMap[string, any](1)
+	m1.Set("p", "1")
+	doc1 := NewMap[string, any](3)
+	doc1.Set("name", "n1")
+	doc1.Set("extra", m1)
+	in1 := NewMap[string, any](1)
+	in1.Set("x", "X1")
+	doc1.Set("ptr", in1)
+	var h vpHolder
+	vpAssert(Unmarshal(doc1, &h) == nil, "the first document decodes")
+	before := vpSnapshot(doc1)
+
+	doc2 := NewMap[string, any](2)
+	w := vpStr(1, "x-z")
+	kind := vpInt(0, 5)
+	m2 := NewMap[string, any](1)
+	m2.Set("q", w)
+	switch kind {
+	case 1:
+		doc2.Set("extra", nil)
+	case 2:
+		doc2.Set("extra", w)
+	case 3:
+		doc2.Set("extra", m2)
+	case 4:
+		doc2.Set("extra", []any{w})
+	case 5:
+		doc2.Set("extra", NewMap[string, any](0))
+	}
+	ptrKind := vpInt(0, 2)
+	switch ptrKind {
+	case 1:
+		doc2.Set("ptr", nil)
+	case 2:
+		in2 := NewMap[string, any](1)
+		in2.Set("y", w)
+		doc2.Set("ptr", in2)
+	}
+	vpAssert(Unmarshal(doc2, &h) == nil, "the second document decodes")
+	vpAssert(h.Name == "n1", "an absent key leaves the field as it was")
+	switch kind {
+	case 0:
+		got, ok := h.Extra.(*Map[string, any])
+		vpAssert(ok && got == m1, "an absent key leaves a field of type any as it was")
+	case 1:
+		vpAssert(h.Extra == nil, "null zeroes a field of type any")
+	case 2:
+		vpAssert(h.Extra == any(w), "a scalar replaces what a field of type any held")
+	case 3:
+		got, ok := h.Extra.(*Map[string, any])
+		okm := ok && got.Len() == 1
+		if okm {
+			q, has := got.Get("q")
+			okm = has && q == any(w)
+		}
+		vpAssert(okm, "a mapping replaces what a field of type any held: exactly the new keys")
+	case 4:
+		l, ok := h.Extra.([]any)
+		vpAssert(ok && len(l) == 1 && l[0] == any(w), "a list replaces what a field of type any held")
+	case 5:
+		got, ok := h.Extra.(*Map[string, any])
+		vpAssert(ok && got.Len() == 0, "an empty mapping replaces what a field of type any held")
+	}
+	switch ptrKind {
+	case 0:
+		vpAssert(h.Ptr != nil && h.Ptr.X == "X1", "an absent key leaves a pointer field as it was")
+	case 1:
+		vpAssert(h.Ptr == nil, "null zeroes a pointer field")
+	case 2:
+		vpAssert(h.Ptr != nil && h.Ptr.Y == w, "a present key fills the struct the pointer field holds")
+	}
+	vpAssert(vpUnchanged(doc1, before) && m1.Len() == 1, "the earlier document is not written to")
 }
